@@ -7,6 +7,9 @@
 (* events (dependency rule, no duplicates), ending with all messages sent.  *)
 EXTENDS JunctionTree, TraceLib
 
+CONSTANT Strict    \* TRUE: the run must be a behaviour of the whole model (the reported elimination order reproduces the
+                   \* nodes, greedy choices are cost-minimal); FALSE: only the clauses that restate C12 (valid tree, valid schedule)
+
 VARIABLES tid, l
 tvars == <<vars, tid, l>>
 
@@ -21,13 +24,20 @@ TraceInit ==
 
 IsEv(n) == /\ l <= Len(T.events) /\ Ev.e = n /\ l' = l + 1 /\ UNCHANGED tid
 
-TrEliminate == /\ IsEv("Eliminate")
+TrEliminate == /\ Strict /\ IsEv("Eliminate")
                /\ T.mode = "greedy" => CostMinimal(Ev.a)
                /\ Eliminate(Ev.a)
+TrSkipElim == ~Strict /\ IsEv("Eliminate") /\ UNCHANGED vars
 
-TrCliques == FindCliques /\ UNCHANGED <<tid, l>>      \* internal step, not logged
+TrCliques == Strict /\ FindCliques /\ UNCHANGED <<tid, l>>      \* internal step, not logged
 
-TrTree == /\ IsEv("Tree")
+TrTreeL == /\ ~Strict /\ IsEv("Tree")
+           /\ LET N == SetOfSets(Ev.nodes)
+                  TE == {{ToSet(e[1]), ToSet(e[2])} : e \in ToSet(Ev.edges)}
+              IN  /\ JTValid(cl, N, TE)
+                  /\ maxcl' = N /\ tree' = TE /\ pc' = "send"
+                  /\ UNCHANGED <<cl, sz, alive, E, fill, hc, elim, sent>>
+TrTree == /\ Strict /\ IsEv("Tree")
           /\ LET N == SetOfSets(Ev.nodes)
                  TE == {{ToSet(e[1]), ToSet(e[2])} : e \in ToSet(Ev.edges)}
              IN  /\ N = maxcl
@@ -38,7 +48,7 @@ TrSend == IsEv("Send") /\ Send(ToSet(Ev.i), ToSet(Ev.j))
 
 TrDone == IsEv("Done") /\ pc = "send" /\ sent = AllDir(tree) /\ UNCHANGED vars
 
-TraceNext == TrEliminate \/ TrCliques \/ TrTree \/ TrSend \/ TrDone
+TraceNext == TrEliminate \/ TrSkipElim \/ TrCliques \/ TrTree \/ TrTreeL \/ TrSend \/ TrDone
 TraceSpec == TraceInit /\ [][TraceNext]_tvars
 
 Marker == Mark(tid, l)
